@@ -7,7 +7,7 @@
 
 use crate::family::magics_model;
 use crate::family::obs::push_observer;
-use crate::h_c13::{cut_success_path, format_any, gen_any_one, uci_string_any};
+use crate::h_c13::{cut_success_path, find_uci_model, format_any, gen_any_one, uci_string_any};
 use crate::h_zobrist::psq_indicator;
 use crate::refchess::{B, N, P, Q, R};
 use crate::{deep2_cells, deep3_cells, exact_cells, quick_cells, squares64, tiny_cells};
@@ -45,6 +45,18 @@ macro_rules! kfam13 {
         #[kani::stub(inkayaku_board::Bitboard::generate_pseudo_legal_moves, gen_any_one)]
         #[kani::stub(inkayaku_board::Move::to_uci_string, uci_string_any)]
         #[kani::stub(alloc::fmt::format, format_any)]
+        pub fn $cell() { $body(&$kinds, $turn, $opt) }
+    };
+}
+
+/// C13 make_all_uci: find_uci replaced by the model c13_find justifies
+macro_rules! kfam13all {
+    ($group:ident, $cell:ident, $body:path, $kinds:expr, $turn:expr, $opt:expr) => {
+        #[kani::proof]
+        #[kani::unwind(9)]
+        #[kani::stub(std::vec::Vec::push, push_observer)]
+        #[kani::stub(<[inkayaku_board::verif::MagicConfiguration; 64] as inkayaku_board::verif::UnsafeMagicsExt>::get_attacks, magics_model)]
+        #[kani::stub(inkayaku_board::Bitboard::find_uci, find_uci_model)]
         pub fn $cell() { $body(&$kinds, $turn, $opt) }
     };
 }
@@ -119,7 +131,8 @@ family_group!("c05", c05_valid, kfam, crate::h_board::c05_valid);
 family_group!("c06", c06_incr, kfam6, crate::h_board::c06_incr);
 family_group!("c13", c13_find, kfam13, crate::h_c13::c13_find);
 family_group!("c13", c13_make, kfam13, crate::h_c13::c13_make);
-family_group!("c13", c13_all, kfam13, crate::h_c13::c13_all);
+family_group!("c13", c13_all, kfam13all, crate::h_c13::c13_all);
+family_group!("c13", c13_allw, kfam13all, crate::h_c13::c13_allw);
 family_group!("c13", c13_san, kfam13san, crate::h_c13::c13_san);
 
 #[cfg(feature = "c04")]
